@@ -53,7 +53,7 @@ def gen_cfg(rnd, d, *, clustering=None, kernels=("tpcn", "rwm"), resamplers=("mu
         cfg["n_max_clusters"] = pick(rnd, list(n_max_clusters))
         cfg["split_threshold"] = pick(rnd, [0.5, 1.0, 1.0, 2.0])
     if vv and rnd.random() < 0.25:
-        cfg["volume_variation"] = pick(rnd, [0.1, 0.25, 1.0])
+        cfg["volume_variation"] = pick(rnd, [0.05, 0.1, 0.25, 1.0])
     if rnd.random() < 0.3:
         cfg["n_steps"] = pick(rnd, [1, 2, 3])
     if rnd.random() < 0.3:
